@@ -36,6 +36,7 @@ type Gen struct {
 	entropy int64
 	Sent    []Case // earlier byte strings (for resubmission / re-encoding)
 	mult    int64
+	perType map[string]int64 // per message type multipliers of the chain
 }
 
 func NewGen(r *gen.R, l *Lab, ro *Roles, p Profile, mult int64) *Gen {
@@ -117,16 +118,23 @@ func (g *Gen) pickMsg() msgChoice {
 
 const feeKinds = 12
 
-func (g *Gen) pickFee(bad bool) (sdk.Coins, string) {
-	if !bad {
-		return sdk.Coins{sdk.Coin{Denom: "upokt", Amount: sdk.NewInt(Fee * g.mult)}}, "equal"
+// reqFor is the required fee of msg on this chain.
+func (g *Gen) reqFor(msg sdk.Msg) int64 {
+	if m, ok := g.perType[msg.Type()]; ok {
+		return Fee * m
 	}
-	return g.feeOf(g.R.Intn(feeKinds))
+	return Fee * g.mult
 }
 
-func (g *Gen) feeOf(kind int) (sdk.Coins, string) {
+func (g *Gen) pickFee(bad bool, req int64) (sdk.Coins, string) {
+	if !bad {
+		return sdk.Coins{sdk.Coin{Denom: "upokt", Amount: sdk.NewInt(req)}}, "equal"
+	}
+	return g.feeOf(g.R.Intn(feeKinds), req)
+}
+
+func (g *Gen) feeOf(kind int, req int64) (sdk.Coins, string) {
 	r := g.R
-	req := Fee * g.mult
 	c := func(d string, a int64) sdk.Coin { return sdk.Coin{Denom: d, Amount: sdk.NewInt(a)} }
 	switch kind {
 	case 0:
@@ -184,7 +192,7 @@ func (g *Gen) Next() Case {
 	g.entropy++
 	spec := TxSpec{Msg: m.msg, Entropy: g.entropy, SignChain: g.ChainID}
 	var feeKind string
-	spec.Fee, feeKind = g.pickFee(r.Intn(100) < g.P.BadFee)
+	spec.Fee, feeKind = g.pickFee(r.Intn(100) < g.P.BadFee, g.reqFor(m.msg))
 	rel := "owner"
 	spec.By = m.right[0]
 	if g.P.Relations && len(m.right) > 1 && r.Chance(1, 2) {
@@ -232,19 +240,23 @@ func (g *Gen) Core() [][]Case {
 	var blocks [][]Case
 	mk := func(name string, msg sdk.ProtoMsg, by Signer, fee sdk.Coins, feeKind string) Case {
 		g.entropy++
+		if fee == nil { // exactly the required fee of this message
+			fee = sdk.Coins{sdk.Coin{Denom: "upokt", Amount: sdk.NewInt(g.reqFor(msg))}}
+		}
 		c := Case{Kind: fmt.Sprintf("core-%s/owner/good/fee-%s", name, feeKind), Variant: "-",
 			Raw: Build(TxSpec{Msg: msg, Fee: fee, Entropy: g.entropy, SignChain: g.ChainID, By: by})}
 		g.Sent = append(g.Sent, c)
 		return c
 	}
-	eq := sdk.Coins{sdk.Coin{Denom: "upokt", Amount: sdk.NewInt(Fee * g.mult)}}
+	var eq sdk.Coins // nil = exactly the required fee
+	sendReq := g.reqFor(chain.MsgSend(ro.Rich[0].Addr, ro.Rich[1].Addr, 1))
 	switch g.P.Name {
 	case "c15":
 		// every fee shape from a simple key, from the two-denomination account and from the multisig account
 		for k := -1; k < feeKinds; k++ {
 			fee, name := eq, "equal"
 			if k >= 0 {
-				fee, name = g.feeOf(k)
+				fee, name = g.feeOf(k, sendReq)
 			}
 			blocks = append(blocks, []Case{
 				mk("send", chain.MsgSend(ro.Rich[0].Addr, ro.Rich[1].Addr, 11), Single{ro.Rich[0]}, fee, name),
@@ -303,7 +315,7 @@ func (g *Gen) Core() [][]Case {
 // the transaction) by Rich[0], who is not a signer of the message.
 func (g *Gen) StrangerSend() Case {
 	g.entropy++
-	fee := sdk.Coins{sdk.Coin{Denom: "upokt", Amount: sdk.NewInt(Fee * g.mult)}}
+	fee := sdk.Coins{sdk.Coin{Denom: "upokt", Amount: sdk.NewInt(g.reqFor(chain.MsgSend(g.Ro.Rich[1].Addr, g.Ro.Rich[2].Addr, 777)))}}
 	return Case{Kind: "core-send/stranger/good/fee-equal", Variant: "-",
 		Raw: Build(TxSpec{Msg: chain.MsgSend(g.Ro.Rich[1].Addr, g.Ro.Rich[2].Addr, 777), Fee: fee, Entropy: g.entropy, SignChain: g.ChainID, By: Single{g.Ro.Rich[0]}})}
 }
